@@ -834,21 +834,7 @@ theorem parsePacket_pid_188 (bs : Bytes) (p : Packet) (hl : bs.length = 188)
     rw [← h.1]; exact ehd
 
 theorem afBytes_length_le (a : PacketAdaptationField) (h1 : a.isOneByteStuffing = false) :
-    ((afBytes a).length : Int) ≤ 1 + afSize a := by
-  unfold afBytes afSize
-  simp only [h1, Bool.false_eq_true, if_false, List.length_append, List.length_cons, List.length_nil, List.length_replicate]
-  have hf : (packFields [(b2n a.discontinuityIndicator, 1), (b2n a.randomAccessIndicator, 1),
-        (b2n a.elementaryStreamPriorityIndicator, 1), (b2n a.hasPCR, 1), (b2n a.hasOPCR, 1),
-        (b2n a.hasSplicingCountdown, 1), (b2n a.hasTransportPrivateData, 1), (b2n a.hasAdaptationExtensionField, 1)]).length = 1 := by
-    simp [packFields, fieldsWidth, beBytes]
-  rw [hf]
-  have hst : ((a.stuffingLength.toNat : Nat) : Int) ≤ (if 0 < a.stuffingLength then a.stuffingLength else 0) := by
-    split <;> omega
-  have hpriv : ((if 0 < a.transportPrivateDataLength then a.transportPrivateData else []).length : Int) ≤ a.transportPrivateData.length := by
-    split <;> simp
-  cases hpcr : a.hasPCR <;> cases hopcr : a.hasOPCR <;> cases hsc : a.hasSplicingCountdown <;>
-    cases hpd : a.hasTransportPrivateData <;> cases hext : a.hasAdaptationExtensionField <;>
-    simp [C04.pcrBytes_length, C04.afExtBytes_length] <;> omega
+    ((afBytes a).length : Int) ≤ 1 + afSize a := Int.le_of_eq (Astits.MuxWhole.afBytes_length a h1)
 
 theorem writePacket_length188 (p : Packet) (bs : Bytes) (h : writePacket p 188 = .ok bs) : bs.length = 188 := by
   unfold writePacket at h
